@@ -6,7 +6,7 @@ import ast
 from ..model import CFG
 from . import names
 from .common import site_of
-from .flow import (own, Oblig, calls, events, deps_of, arg_deps, SELF, P, result_locs, facts_on_path, has_fact)
+from .flow import (own, Oblig, calls, events, deps_of, arg_deps, SELF, P, result_locs, facts_on_path, has_fact, inline_locals)
 
 PROD = "pyformlang.cfg.production.Production"
 EXPLANATION = (
@@ -80,7 +80,7 @@ def run(eng, rep, tier):
     ctr_names = set()
     for c in ast.walk(fi.node):
         if isinstance(c, ast.Call) and getattr(c.func, "id", "") == "Variable" and c.args:
-            for sub in ast.walk(c.args[0]):
+            for sub in [x for e in inline_locals(fi.node, c.args[0]) for x in ast.walk(e)]:
                 if isinstance(sub, ast.Call) and getattr(sub.func, "id", "") == "str" and sub.args and \
                         isinstance(sub.args[0], ast.Name):
                     ctr_names.add(sub.args[0].id)
